@@ -188,6 +188,9 @@ struct Model {
     reg: Vec<u8>,
     present: [bool; NT],
     count: [u64; NT],
+    /// the registration of the type with the address-changing cast was rejected by a panic (an implementation may
+    /// reject it there instead of at the first conversion); the type then counts as not registered
+    rejected_bad: bool,
 }
 
 fn rid(i: u8) -> ResourceId {
@@ -314,9 +317,20 @@ pub fn run_history(h: &[Op17]) -> Result<Vec<u8>, Fail> {
         let fail = |sig: &str, msg: String| -> Fail { (sig.to_string(), msg, step) };
         match *op {
             Op17::Register(i) => {
-                register(&mut t, i);
-                if !m.reg.contains(&i) {
-                    m.reg.push(i);
+                let r = catch_unwind(AssertUnwindSafe(|| register(&mut t, i)));
+                match r {
+                    Ok(()) => {
+                        if !m.reg.contains(&i) {
+                            m.reg.push(i);
+                        }
+                    }
+                    Err(p) => {
+                        if i != 5 {
+                            return Err(fail("register-panicked", format!("{:?} panicked: {}", op, payload_str(&*p))));
+                        }
+                        // rejected at registration: the table must go on working for everybody else
+                        m.rejected_bad = true;
+                    }
                 }
             }
             Op17::Insert(i) => {
@@ -348,9 +362,12 @@ pub fn run_history(h: &[Op17]) -> Result<Vec<u8>, Fail> {
                 }));
                 match r {
                     Err(p) => {
-                        if i != 5 || !registered {
+                        if i != 5 || !(registered || m.rejected_bad) {
                             return Err(fail("meta-get-panicked", format!("{:?} panicked: {}", op, payload_str(&*p))));
                         }
+                    }
+                    Ok(Some(_)) if i == 5 && m.rejected_bad => {
+                        return Err(fail("address-changing-cast-accepted", "the registration of the address-changing cast was rejected by a panic, yet a resource of that type is converted afterwards".to_string()));
                     }
                     Ok(None) => {
                         if registered {
@@ -439,6 +456,46 @@ pub fn run_history(h: &[Op17]) -> Result<Vec<u8>, Fail> {
                                 return Err(fail("wrong-object-returned", format!("{:?}: object of type {} reports addr {:#x} count {}, expected {:?} / {}", op, tag, a, c, addrs[*tag as usize], m.count[*tag as usize])));
                             }
                         }
+                        // positional access through the std adaptors (nth, skip, step_by, last, count) sees the same
+                        // sequence as next(): an iterator over "the registered types currently present"
+                        if held_eff.is_none() {
+                            let pos = catch_unwind(AssertUnwindSafe(|| -> Option<String> {
+                                let n = expect.len();
+                                for k in 0..=n + 1 {
+                                    let a = t.iter(&w).nth(k).map(|o| o.tag());
+                                    if a != expect.get(k).copied() {
+                                        return Some(format!("iter().nth({}) yields {:?}, next() x{} yields {:?}", k, a, k + 1, expect.get(k)));
+                                    }
+                                    let b = t.iter_mut(&w).nth(k).map(|o| o.tag());
+                                    if b != expect.get(k).copied() {
+                                        return Some(format!("iter_mut().nth({}) yields {:?}, expected {:?}", k, b, expect.get(k)));
+                                    }
+                                    let sk: Vec<u8> = t.iter(&w).skip(k).map(|o| o.tag()).collect();
+                                    if sk != expect[k.min(n)..] {
+                                        return Some(format!("iter().skip({}) yields {:?}, expected {:?}", k, sk, &expect[k.min(n)..]));
+                                    }
+                                }
+                                let st: Vec<u8> = t.iter(&w).step_by(2).map(|o| o.tag()).collect();
+                                let want: Vec<u8> = expect.iter().copied().step_by(2).collect();
+                                if st != want {
+                                    return Some(format!("iter().step_by(2) yields {:?}, expected {:?}", st, want));
+                                }
+                                let mut it = t.iter(&w);
+                                let two = (it.nth(1).map(|o| o.tag()), it.nth(0).map(|o| o.tag()));
+                                if two != (expect.get(1).copied(), expect.get(2).copied()) {
+                                    return Some(format!("nth(1) then nth(0) on one iterator yield {:?}, expected {:?}", two, (expect.get(1), expect.get(2))));
+                                }
+                                if t.iter(&w).count() != n || t.iter(&w).last().map(|o| o.tag()) != expect.last().copied() {
+                                    return Some("count() / last() disagree with next()".into());
+                                }
+                                None
+                            }));
+                            match pos {
+                                Ok(None) => {}
+                                Ok(Some(e)) => return Err(fail("positional-access-differs-from-next", e)),
+                                Err(p) => return Err(fail("iteration-panicked", format!("positional access panicked: {}", payload_str(&*p)))),
+                            }
+                        }
                     }
                 }
                 // nothing leaked
@@ -501,6 +558,7 @@ pub fn run_history(h: &[Op17]) -> Result<Vec<u8>, Fail> {
     key.extend(got);
     key.push(98);
     key.extend(m.reg.iter().copied().filter(|i| *i == 5));
+    key.push(m.rejected_bad as u8);
     key.push(99);
     for i in 0..NT {
         key.push(m.present[i] as u8);
